@@ -173,8 +173,77 @@ func pdepPext(x, m uint64) {
 	}
 }
 
+// codecParams: validateLowEntropyCodecParams through its export hook: every mode -1..9 x half masks of weight w-3..w+3 around
+// the mode's weight (and 0, 32) x valid / invalid rotations, then random. Judged against the document: accepted iff the mode is
+// one of the four, the half mask has exactly the mode's number of one bits, and the rotation is valid.
+func codecParams(n int) {
+	g := r.Rng
+	weights := map[int32]int{1: 16, 2: 20, 3: 24, 4: 28}
+	maskOfWeight := func(w int) uint32 {
+		if w <= 0 {
+			return 0
+		}
+		if w >= 32 {
+			return math.MaxUint32
+		}
+		var m uint32
+		for bits := 0; bits < w; {
+			b := uint32(1) << uint(g.Intn(32))
+			if m&b == 0 {
+				m |= b
+				bits++
+			}
+		}
+		return m
+	}
+	popcount := func(m uint32) int {
+		c := 0
+		for ; m != 0; m &= m - 1 {
+			c++
+		}
+		return c
+	}
+	rotOK := func(rot int32) bool { return rot == 0 || (rot >= 1 && rot <= 15) || (rot >= 16 && rot <= 240 && rot%16 == 0) }
+	one := func(mode int32, mask uint32, rot int32) {
+		var c, w int
+		var failed bool
+		out := emit("validateLowEntropyCodecParams", []string{fmt.Sprint(mode), u(uint64(mask)), fmt.Sprint(rot)}, func() string {
+			c, w, failed = protocol.VerifXLValidateLowEntropyCodecParams(mode, mask, rot)
+			return fmt.Sprintf("%d %d %s", c, w, b2s(failed))
+		})
+		_ = out
+		want, known := weights[mode]
+		ok := known && popcount(mask) == want && rotOK(rot)
+		r.Distinct(fmt.Sprintf("codecparams/m%d/dw%d/rot%v/%v", mode, popcount(mask)-want, rotOK(rot), failed))
+		if ok == failed {
+			r.Fail("accepted-invalid-params", fmt.Sprintf("validateLowEntropyCodecParams(mode %d, half mask %#x with %d one bits, rotation %d): error=%v", mode, mask, popcount(mask), rot, failed),
+				map[string]string{"func": "validateLowEntropyCodecParams", "mode": fmt.Sprint(mode), "mask": fmt.Sprint(mask), "rotation": fmt.Sprint(rot)})
+		}
+	}
+	rots := []int32{0, 1, 15, 16, 17, 32, 240, 241, 256, -1, 8}
+	for mode := int32(-1); mode <= 9; mode++ {
+		base := weights[mode]
+		for dw := -3; dw <= 3; dw++ {
+			for _, rot := range rots {
+				one(mode, maskOfWeight(base+dw), rot)
+			}
+		}
+		one(mode, 0, 0)
+		one(mode, math.MaxUint32, 0)
+	}
+	for k := 0; k < n; k++ {
+		mode := int32(g.Intn(6))
+		w := weights[mode] + g.Intn(5) - 2
+		if g.Intn(4) == 0 {
+			w = g.Intn(33)
+		}
+		one(mode, maskOfWeight(w), []int32{0, int32(g.Intn(20)), int32(16 * g.Intn(17)), int32(g.Intn(300)) - 20}[g.Intn(4)])
+	}
+}
+
 func groupC17(n int) {
 	g := r.Rng
+	codecParams(n)
 	for _, x := range u64Boundary {
 		for _, m := range u64Boundary {
 			pdepPext(x, m)
